@@ -730,9 +730,19 @@ def _check_history(case, ctx):
     noise_set_then_cleared = False
     had_noise = False
     n_use = 0
+    x0 = x
+    other = None
     with _tagged(tags):
         Hbuf = H.copy()
         obj = cls(Hbuf)
+        if case["data"] and len(case["ops"]) % 2 == 0:
+            # a second live link of the same class with ANOTHER channel
+            Ho = (H * np.exp(1j * np.arange(1, H.size + 1).reshape(H.shape))
+                  if np.iscomplexobj(H) else H[::-1].copy())
+            other = cls(Ho.copy())
+            if scheme in _NOISE_SCHEMES:
+                other.set_noise_var(0.37)
+            ctx.label("hist:second_link_alive")
         for i, op in enumerate(case["ops"]):
             if op["op"] == "chan":
                 H, _, s, _ = build_cond_matrix(op["chan"])
@@ -781,10 +791,28 @@ def _check_history(case, ctx):
                     return
             else:
                 n_use += 1
+                # another data block of the same length for every use (a
+                # result kept from the block before must not be touched)
+                x = x0 * (1.0 + 0.5 * (n_use - 1)) if n_use % 2 else \
+                    np.roll(x0, 1) * (1.0 + 0.5 * (n_use - 1))
+                xmax = float(np.max(np.abs(x)))
                 fresh = cls(H.copy())
                 if scheme in _NOISE_SCHEMES:
                     fresh.set_noise_var(noise)
-                e2 = np.asarray(fresh.encode(x.copy()))
+                xa = x.copy()
+                e2 = np.asarray(fresh.encode(xa))
+                if np.shares_memory(e2, xa):
+                    raise Violation("encode_aliases_argument", "encode "
+                                    "returned (a view of) the caller's data "
+                                    "array", tags)
+                d2 = np.asarray(fresh.decode(H.dot(e2)))
+                if other is not None:
+                    # a second, independent link of the same scheme (its own
+                    # channel, the same noise variance) is used just before
+                    other.set_channel_matrix(Ho.copy())     # a new drop
+                    if scheme in _NOISE_SCHEMES:
+                        other.set_noise_var(noise)
+                    other.decode(Ho.dot(np.asarray(other.encode(x0.copy()))))
                 if op["op"] == "decode_only":
                     # the object only RECEIVES: the data was encoded by
                     # another object (the transmitter) for the same channel
@@ -794,7 +822,6 @@ def _check_history(case, ctx):
                     e1 = np.asarray(obj.encode(x.copy()))
                 y = H.dot(e1)
                 d1 = np.asarray(obj.decode(y.copy()))
-                d2 = np.asarray(fresh.decode(H.dot(e2)))
                 tol = 1e-10 * kappa * max(xmax, 1e-300)
                 ctx.close("history_encode_vs_fresh",
                           float(np.max(np.abs(e1 - e2))), tol,
